@@ -482,7 +482,9 @@ class ShardedFileAccessor(neuroglancer_scripts.accessor.Accessor,
                                          shard_volume_spec=shard_volume_spec,
                                          **self.kwargs)
             self.shard_dict[key] = sharded_scale
-        self.shard_dict[key].store_chunk(buf, chunk_coords, **kwargs)
+        # Encoders may return other bytes-like objects (e.g. a bytearray for
+        # compressed_segmentation), but the write buffers only hold bytes
+        self.shard_dict[key].store_chunk(bytes(buf), chunk_coords, **kwargs)
 
     def close(self):
         if len(self.shard_dict) == 0:
